@@ -10,7 +10,9 @@ TRUSTED = [
     "hand-written model coq/Model/Wildcards.v of sql/gen_projection.rs translate_wildcards, tied to the code on every run by comparing it with the inputs/outputs of every real call (cfg(prqlc_verif) hook, commit 553813c in /repo)",
     "reference semantics coq/Model/Rel.v (frame rules: alias/ident naming, same-name shadowing, join = left ++ right, group = keys ++ rest)",
     "end-to-end oracle: sqlite3 column names of the emitted SQL vs the frame of the reference semantics, on tables that have an extra column the program never mentions (run-time expansion of *)",
-    "modelled, not verified: translate_select_item / deduplicate_select_items / push_select / the limiting SELECT of extract_atomic are covered by execution only",
+    "hand-written model coq/Model/Dedup.v of deduplicate_select_items, tied the same way (hook commit b55902d); both functions are textually unchanged at /repo HEAD 2a611aa (only cfg(prqlc_verif) code was added to gen_projection.rs)",
+    "star stream: sqlparser (parse of the emitted duckdb / bigquery / snowflake SQL) and the star expander of harness/src/c05.rs, validated on every run against the column names SQLite reports",
+    "not modelled: translate_select_item / translate_select_items / push_select / the limiting SELECT of extract_atomic are covered by execution only (hooks select-item / select-items exist in /repo; their /verif side is not built yet)",
 ]
 
 
@@ -527,6 +529,20 @@ def run():
     add(["unnamedjoin"], False, k=8 * m)                       # joined sub-pipeline with two un-named columns: reaching the result / behind a closing select
     add(["sort", "unnamedjoin"], False, rename=True, k=4 * m)
     add(["derive", "group_win", "exclude"], False, k=4 * m)
+    # F38 (shared): join of tables sharing a column name, sort by the left one, take, then select the RIGHT one: the CTE renames the
+    # left column `t.id AS _expr_0` and its own ORDER BY says `t._expr_0`
+    def qcol(q, c):
+        return "ECol (Some %d%%N) %d%%N" % (P.nid(q), P.nid(c))
+    for side, sd in (("Inner", ""), ("LeftJ", "side:left ")):
+        k_ = rng.choice(["id", "g"])
+        picks = [("t", "a"), ("u", k_), ("u", "d")] + ([("t", "c")] if rng.random() < 0.5 else [])
+        f38 = P.Program([
+            P.Step("join", "join %su (t.id == u.id)" % sd, "TJoin %s %d%%N U_COLS U_TABLE (EBin Eq (%s) (%s))" % (side, P.nid("u"), qcol("t", "id"), qcol("u", "id")), side=side, one_to_one=True),
+            P.Step("sort", "sort {t.%s, t.id}" % k_, "TSort [(false, %s); (false, %s)]" % (qcol("t", k_), qcol("t", "id")), keys=[(False, ("col", "t", k_)), (False, ("col", "t", "id"))]),
+            P.Step("take", "take 3", "TTake None (Some (3))", rng=(None, 3)),
+            P.Step("select", "select {%s}" % ", ".join("%s.%s" % p_ for p_ in picks), "TSelect [%s]" % "; ".join("(None, %s)" % qcol(*p_) for p_ in picks), final=True)],
+            True, [c for _, c in picks], {"final_select": True, "key_pos": None})
+        cases.append((f38, [P.gen_instance(rng, max_rows=5, min_rows=3, extra=("zz",))]))
     # hand-built programs of the shared relational findings (vplib/rel/e2e.directed_known): the ones that break the SQL
     # (dangling names) are C05 failures too; the ones that only change row VALUES are not judged here (judge_cols)
     for fid, pg, inst in E.directed_known(rng):
